@@ -229,6 +229,18 @@ struct World {
         d.val(l2(*b));
         break;
       }
+      case 14: {  // build thread-private objects from scratch: new grid storage, generator, basis (as the project's accuracy study does per thread)
+        std::vector<T> k{mk<T>(-1), mk<T>(0), mk<T>(0), mk<T>(0.5), mk<T>(2), mk<T>(4)};
+        BSplineGenerator<T> g2(k);
+        auto v = g2.template generateBSplines<2>();
+        d.u(v.size());
+        d.u(g2.getGrid().size());
+        support::Grid<T> own(std::vector<T>{mk<T>(0), mk<T>(1), mk<T>(3)});
+        S2 s(support::Support<T>(own, 0, 3), std::vector<std::array<T, 3>>{{mk<T>(1), mk<T>(2), mk<T>(3)}, {mk<T>(-1), mk<T>(0.5), mk<T>(0)}});
+        d.val(s(mk<T>(2)));
+        d.val(integration::ScalarProduct{}(s, s));
+        break;
+      }
       case 8: {  // support algebra on shared const supports
         auto u1 = sup->calcUnion(a->getSupport());
         auto i1 = sup->calcIntersection(b->getSupport());
@@ -243,9 +255,9 @@ struct World {
 
 static World<double> *w0;
 static World<Dbl> *w1;
-static const char *OPN[] = {"evaluate", "copy+destroy", "combine", "transform", "integrate", "generate", "isZero", "destroy-owned", "support-algebra", "combine-with-equal-grid-copy", "position-powers", "lincomb+quadrature", "move-owned+grid-data", "copy-generator+operator+forms"};
+static const char *OPN[] = {"evaluate", "copy+destroy", "combine", "transform", "integrate", "generate", "isZero", "destroy-owned", "support-algebra", "combine-with-equal-grid-copy", "position-powers", "lincomb+quadrature", "move-owned+grid-data", "copy-generator+operator+forms", "build-private-objects"};
 extern "C" {
-int c18_nops() { return 14; }
+int c18_nops() { return 15; }
 const char *c18_opname(int op) { return OPN[op]; }
 void c18_setup(int variant) {
   if (variant == 0) { w0 = new World<double>(); w0->setup(); }
